@@ -205,6 +205,9 @@ func runSchedule(setup func(t *thr), bodies []func(t *thr), prefix []int, stateK
 	for m := range s.locks {
 		if m.Held {
 			x.lockHeld = true
+			// a mutex left held is reported by the caller; it is released here so that the next execution starts from
+			// unlocked mutexes whatever package they belong to
+			m.Held, m.Owner = false, 0
 		}
 	}
 	return x
